@@ -232,13 +232,15 @@ Fixpoint fdedup (fl : list str) : list str :=
   end.
 Definition fremove (f : str) (fl : list str) : list str := filter (fun g => negb (str_eqb f g)) fl.
 Definition RECENT : str := S_ "\Recent".
-Definition DELETED_PAT : str := S_ "%\Deleted%".
+Definition DELETED_FLAG : str := S_ "\Deleted".
 Definition JUNK : str := S_ "Junk".
 Definition NONJUNK : str := S_ "NonJunk".
 Definition SPAM : str := S_ "Spam".
 
-(** flags LIKE '%\Deleted%' on the stored string *)
-Definition is_deleted (l : link) : bool := sql_like DELETED_PAT (join (lk_flags l) SP).
+(** instr(' ' || flags || ' ', ' \Deleted ') > 0 on the stored string (flags are
+    stored single-blank separated): the whole flag \Deleted, exact case
+    (raven 378938d; before that: flags LIKE '%\Deleted%') *)
+Definition is_deleted (l : link) : bool := fmem DELETED_FLAG (lk_flags l).
 
 (** ---- initial store --------------------------------------------------------- *)
 
